@@ -12,9 +12,18 @@ import (
 	"verifharness/hx"
 )
 
+type item struct {
+	req int // index into reqs
+	top bool
+	fol string
+}
+
 type run struct {
-	reqs  []Req
-	idx   int // number of reads so far = 1-based index of the current request
+	reqs   []Req
+	stream []item
+	pos    int
+	gssIdx int
+	idx    int // 1-based index of the current (last read) top-level request
 	evs   []string
 	perms map[int]*ssh.Permissions
 	ids   map[*ssh.Permissions]int
@@ -42,7 +51,7 @@ func (x *run) cur() Req {
 // callbacks builds the ServerAuthCallbacks for a `pw pk kbd` bit string; gen tags the invocations.
 func (x *run) callbacks(bits string, gen int) ssh.ServerAuthCallbacks {
 	var c ssh.ServerAuthCallbacks
-	if len(bits) != 3 {
+	if len(bits) != 3 && len(bits) != 4 {
 		panic("bad cbs " + bits)
 	}
 	if bits[0] == '1' {
@@ -60,11 +69,68 @@ func (x *run) callbacks(bits string, gen int) ssh.ServerAuthCallbacks {
 	if bits[2] == '1' {
 		c.KeyboardInteractiveCallback = func(conn ssh.ConnMetadata, ch ssh.KeyboardInteractiveChallenge) (*ssh.Permissions, error) {
 			x.ev("cb.kbd(%d,%s)", gen, conn.User())
+			for _, q := range x.cur().KbdRounds {
+				qs := make([]string, q)
+				for i := range qs {
+					qs[i] = "q?"
+				}
+				if _, err := ch("name", "instruction", qs, make([]bool, q)); err != nil {
+					return nil, err
+				}
+			}
 			return x.outcome(x.cur().Cb)
+		}
+	}
+	if len(bits) == 4 && bits[3] == '1' {
+		c.GSSAPIWithMICConfig = &ssh.GSSAPIWithMICConfig{
+			Server: &gssServer{x},
+			AllowLogin: func(conn ssh.ConnMetadata, srcName string) (*ssh.Permissions, error) {
+				if srcName != gssSrcName {
+					x.ev("?src")
+				}
+				x.ev("cb.gss(%d,%s)", gen, conn.User())
+				return x.outcome(x.cur().Cb)
+			},
 		}
 	}
 	return c
 }
+
+const gssSrcName = "user@VERIF.REALM"
+
+// gssServer is the scripted GSSAPIServer: AcceptSecContext replays the request's steps, VerifyMIC
+// accepts the token GoodMIC over exactly the RFC 4462 §3.5 MIC field (built by the harness).
+type gssServer struct{ x *run }
+
+func (g *gssServer) AcceptSecContext(token []byte) ([]byte, string, bool, error) {
+	x := g.x
+	x.ev("gss.accept")
+	steps := x.cur().GssSteps
+	if x.gssIdx >= len(steps) {
+		return nil, "", false, errors.New("gss: script exhausted")
+	}
+	s := steps[x.gssIdx]
+	x.gssIdx++
+	if s[0] == '1' {
+		return nil, "", false, errors.New("gss: scripted failure")
+	}
+	var out []byte
+	if s[1] == '1' {
+		out = []byte("server-token")
+	}
+	return out, gssSrcName, s[2] == '1', nil
+}
+
+func (g *gssServer) VerifyMIC(micField, micToken []byte) error {
+	g.x.ev("gss.mic")
+	r := g.x.cur()
+	if string(micToken) == GoodMIC && string(micField) == string(MICField(SessionID, r.User, r.Service)) {
+		return nil
+	}
+	return errors.New("gss: MIC mismatch")
+}
+
+func (g *gssServer) DeleteSecContext() error { g.x.ev("gss.del"); return nil }
 
 func (x *run) outcome(o string) (*ssh.Permissions, error) {
 	switch {
@@ -116,7 +182,24 @@ func (x *run) onWrite(p []byte) error {
 			m = "-"
 		}
 		x.ev("F:%s:%d", m, rest[0])
+	case 61:
+		x.ev("GT")
 	case 60:
+		switch x.cur().Method {
+		case "keyboard-interactive":
+			_, r1, ok1 := rdStr(p[1:])
+			_, r2, ok2 := rdStr(r1)
+			_, r3, ok3 := rdStr(r2)
+			if !ok1 || !ok2 || !ok3 || len(r3) < 4 {
+				x.ev("?IQ")
+				return nil
+			}
+			x.ev("IQ:%d", binary.BigEndian.Uint32(r3))
+			return nil
+		case "gssapi-with-mic":
+			x.ev("GR")
+			return nil
+		}
 		algo, rest, ok := rdStr(p[1:])
 		blob, rest2, ok2 := rdStr(rest)
 		if !ok || !ok2 || len(rest2) != 0 {
@@ -137,10 +220,16 @@ func (x *run) onWrite(p []byte) error {
 }
 
 func (x *run) read() ([]byte, error) {
-	x.idx++
-	if x.idx > len(x.reqs) {
+	if x.pos >= len(x.stream) {
 		return nil, io.EOF
 	}
+	it := x.stream[x.pos]
+	x.pos++
+	if !it.top {
+		return x.reqs[it.req].FollowPacket(it.fol), nil
+	}
+	x.idx = it.req + 1
+	x.gssIdx = 0
 	r := x.reqs[x.idx-1]
 	switch r.T {
 	case "eof":
@@ -167,6 +256,12 @@ func Exec(line string) string {
 	if s := o.Str("reqs"); s != "-" && s != "" {
 		for _, f := range strings.Split(s, ";") {
 			x.reqs = append(x.reqs, ParseReq(f))
+		}
+	}
+	for i, q := range x.reqs {
+		x.stream = append(x.stream, item{req: i, top: true})
+		for _, f := range q.Follow {
+			x.stream = append(x.stream, item{req: i, fol: f})
 		}
 	}
 	// permissions table
@@ -207,6 +302,7 @@ func Exec(line string) string {
 	}
 	cbs := x.callbacks(o.Str("cbs"), 0)
 	cfg.PasswordCallback, cfg.PublicKeyCallback, cfg.KeyboardInteractiveCallback = cbs.PasswordCallback, cbs.PublicKeyCallback, cbs.KeyboardInteractiveCallback
+	cfg.GSSAPIWithMICConfig = cbs.GSSAPIWithMICConfig
 	if o.Str("vpk") == "1" {
 		cfg.VerifiedPublicKeyCallback = func(conn ssh.ConnMetadata, key ssh.PublicKey, perms *ssh.Permissions, sigAlgo string) (*ssh.Permissions, error) {
 			x.ev("cb.vpk(%s,%s,%s,%s)", conn.User(), KeyIDOf(key.Marshal()), x.permID(perms), sigAlgo)
